@@ -119,9 +119,19 @@ const c14Sdp = "v=0\r\no=- 0 0 IN IP4 127.0.0.1\r\ns=No Name\r\nc=IN IP4 127.0.0
 	"a=tool:libavformat 58.29.100\r\nm=audio 0 RTP/AVP 97\r\nb=AS:128\r\na=rtpmap:97 MPEG4-GENERIC/44100/2\r\n" +
 	"a=fmtp:97 profile-level-id=1;mode=AAC-hbr;sizelength=13;indexlength=3;indexdeltalength=3; config=1210\r\na=control:streamid=0\r\n"
 
-type c14RtspObserver struct{ describes int }
+type c14RtspObserver struct {
+	describes int
+	announces int
+	refuse    map[int]bool // the n-th ANNOUNCE that reaches the observer is refused
+}
 
-func (o *c14RtspObserver) OnNewRtspPubSession(session *rtsp.PubSession) error { return nil }
+func (o *c14RtspObserver) OnNewRtspPubSession(session *rtsp.PubSession) error {
+	o.announces++
+	if o.refuse[o.announces-1] {
+		return base.ErrRtspClosedByObserver
+	}
+	return nil
+}
 func (o *c14RtspObserver) OnNewRtspSubSessionDescribe(session *rtsp.SubSession) (bool, []byte) {
 	o.describes++
 	return true, []byte(c14Sdp)
@@ -135,18 +145,35 @@ func c14Describe(a []string) string {
 		panic("bad method")
 	}
 	conf.AuthMethod = m
-	hdrs := c14List(a[4])
+	// request list: N = DESCRIBE without Authorization, A / R = ANNOUNCE the observer accepts / refuses,
+	// anything else = DESCRIBE with that Authorization header value
+	var toks []string
+	if a[4] != "-" {
+		toks = strings.Split(a[4], ",")
+	}
+	obs := &c14RtspObserver{refuse: map[int]bool{}}
 	var reqs [][]byte
-	for i, h := range hdrs {
-		r := fmt.Sprintf("DESCRIBE rtsp://127.0.0.1:5544/live/test110 RTSP/1.0\r\nCSeq: %d\r\n", i+1)
-		if h != "" {
-			r += "Authorization: " + h + "\r\n"
+	nAnnounce := 0
+	for i, tk := range toks {
+		var r string
+		if tk == "A" || tk == "R" {
+			// whether this ANNOUNCE reaches the observer at all is the implementation's business; when it does
+			// it is the next one the observer sees (an earlier accepted ANNOUNCE makes every later request close)
+			if tk == "R" {
+				obs.refuse[nAnnounce] = true
+			}
+			nAnnounce++
+			r = fmt.Sprintf("ANNOUNCE rtsp://127.0.0.1:5544/live/test110 RTSP/1.0\r\nCSeq: %d\r\nContent-Type: application/sdp\r\nContent-Length: %d\r\n\r\n%s", i+1, len(c14Sdp), c14Sdp)
+		} else {
+			r = fmt.Sprintf("DESCRIBE rtsp://127.0.0.1:5544/live/test110 RTSP/1.0\r\nCSeq: %d\r\n", i+1)
+			if tk != "N" {
+				r += "Authorization: " + c14Str(tk) + "\r\n"
+			}
+			r += "\r\n"
 		}
-		r += "\r\n"
 		reqs = append(reqs, []byte(r))
 	}
 	conn := newC14Conn(reqs)
-	obs := &c14RtspObserver{}
 	s := rtsp.NewServerCommandSession(obs, conn, conf, false, "")
 	_ = s.RunLoop()
 	// the write queue is flushed before the next request is read (lockstep), so every
@@ -165,6 +192,8 @@ func c14Describe(a []string) string {
 		case strings.HasPrefix(w, "RTSP/1.0 200 OK\r\n") && strings.HasSuffix(w, c14Sdp):
 			out = append(out, "0x0")
 			sdps++
+		case strings.HasPrefix(w, "RTSP/1.0 200 OK\r\n") && !strings.Contains(w, "Content-Type: application/sdp") && (toks[i] == "A" || toks[i] == "R"):
+			out = append(out, "0x4")
 		case strings.HasPrefix(w, "RTSP/1.0 401 ") && strings.Contains(w, "WWW-Authenticate: Basic realm=\""):
 			out = append(out, "0x1")
 		case strings.HasPrefix(w, "RTSP/1.0 401 ") && strings.Contains(w, "WWW-Authenticate: Digest realm=\"") && strings.Contains(w, "nonce=\""):
